@@ -1,21 +1,21 @@
 SPECIFICATION Spec
 CONSTANTS
  Ids = {"a", "b"}
- MaxB = 2
+ MaxB = 3
  BatchShapes <- Shapes2
  Writers = {w1}
  Safe = FALSE
- KeepN = 1
- MaxEp = 7
+ KeepN = 2
+ MaxEp = 8
  MaxSid = 4
  WithReader = FALSE
- WithCopy = TRUE
- WithMerger = TRUE
+ WithCopy = FALSE
+ WithMerger = FALSE
  WithPurge = TRUE
  WithMemMerge = FALSE
  MaxMergeInputs = 2
  AsyncRelease = FALSE
 CONSTRAINT Bound
-INVARIANTS RootIsReplay HeldAreReplays BoltFilesOnDisk RootFilesOnDisk CopyFilesOnDisk CopyIsPrefix
+INVARIANTS RootIsReplay EveryBoltIsAState Durable NewestLoads BoltFilesOnDisk RootFilesOnDisk NoOrphansWhenQuiescent RollbackOK
 PROPERTIES LayoutStutters ReaderStable
 CHECK_DEADLOCK FALSE
